@@ -64,6 +64,10 @@ def confirm(m):
         meta["steps"]["demo_clean_exit"] = c
         meta["steps"]["demo_clean_tail"] = out[-600:]
         c, out = sh(f"git apply {m['src']}/patch.diff", wt)
+        if c != 0:
+            # written against an earlier HEAD (a repair touched the same file since): context drift
+            c, out = sh(f"patch -p1 --no-backup-if-mismatch < {m['src']}/patch.diff", wt)
+            meta["steps"]["patch_applied_with_fuzz"] = c == 0
         meta["steps"]["patch_applies"] = c == 0
         if c != 0:
             meta["steps"]["patch_error"] = out[-400:]
